@@ -1,5 +1,5 @@
 """C02 -- every format computes the published algorithm bit for bit."""
-from contracts import md5crypt, shacrypt
+from contracts import bigcrypt, md5crypt, shacrypt
 from pyvc.runner import Bounded, Finite
 
 LEVEL = "other"
@@ -21,7 +21,7 @@ ASSUMPTIONS = [
     "digest primitives, libcrypt, Django, bcrypt are trusted oracles of the bounded comparison",
 ]
 CONTRACTS = [shacrypt.passlib_contract("C02", False), shacrypt.passlib_contract("C02", True), shacrypt.libpass_contract("C02"),
-             md5crypt.contract("C02", False), md5crypt.contract("C02", True)]
+             md5crypt.contract("C02", False), md5crypt.contract("C02", True), bigcrypt.contract("C02")]
 FINITE = [Finite("transposition-tables-published-order", md5crypt.published_tables, "md5-crypt / sha256-crypt / sha512-crypt transposition tables (passlib and libpass) equal the output order of the published algorithms"),
           Finite("sha-crypt-tables-identical", shacrypt.tables_equal, "passlib and libpass carry identical _c_digest_offsets / transposition tables")]
 BOUNDED = [Bounded("c02", "harness/c02.py", descr="~85 formats against independent references, crypt(3), Django, bcrypt, hashlib.scrypt", timeout=900)]
@@ -44,4 +44,10 @@ MUTANTS += [
     ("sha-crypt: fixed-memory branch repeats the password len(pwd)+1 times", S2, "        i = pwd_len - 1\n        while i:", "        i = pwd_len\n        while i:", "refute", _SHA),
     ("sha-crypt: odd tail round hashes the odd constant", S2, "dc = hash_const(dc + data[pairs][0]).digest()", "dc = hash_const(dc + data[pairs][1]).digest()", "refute", _SHA),
     ("sha-crypt: salt digest S from 16 + A[1] copies", S2, "ds = hash_const(salt * (16 + da[0])).digest()[:salt_len]", "ds = hash_const(salt * (16 + da[1])).digest()[:salt_len]", "refute", _SHA),
+]
+DC = "passlib/handlers/des_crypt.py"
+MUTANTS += [
+    ("bigcrypt: last segment of one byte dropped", DC, "        while idx < end:\n            next = idx + 8\n            chk += _raw_des_crypt(secret[idx:next], chk[-11:-9])", "        while idx < end - 1:\n            next = idx + 8\n            chk += _raw_des_crypt(secret[idx:next], chk[-11:-9])", "refute", "bigcrypt"),
+    ("bigcrypt: every segment salted from the first digest", DC, "            chk += _raw_des_crypt(secret[idx:next], chk[-11:-9])", "            chk += _raw_des_crypt(secret[idx:next], chk[:2])", "refute", "bigcrypt"),
+    ("bigcrypt: segments overlap by one byte", DC, "            chk += _raw_des_crypt(secret[idx:next], chk[-11:-9])", "            chk += _raw_des_crypt(secret[idx - 1:next], chk[-11:-9])", "refute", "bigcrypt"),
 ]
